@@ -634,3 +634,142 @@ func valName(s *memoSite) string {
 	}
 	return "the loaded state"
 }
+
+func init() {
+	register(&Rule{
+		Name:   "MEMO-COMMIT",
+		ZeroOK: true,
+		Doc:    "a remembered key (`last` in `if key != last { value = load(key) }`) says what is loaded: it is set to the new key only after the load it stands for - in the same round, no fallible, data-reading call that the comparison guards is reachable from the store of the key without going round the loop. Otherwise a load that fails leaves the key claiming it succeeded, and the retry skips the load (an empty or stale result instead of the error)",
+		Run: func(c *Ctx, scope string, r *Report) {
+			for _, fn := range c.srcFns {
+				// comparisons of a value with a remembered field, and stores of that value into the field
+				type memo struct {
+					cmp   *ssa.BinOp
+					key   ssa.Value
+					field *types.Var
+				}
+				var memos []memo
+				for _, b := range fn.Blocks {
+					for _, ins := range b.Instrs {
+						bo, ok := ins.(*ssa.BinOp)
+						if !ok || (bo.Op != token.NEQ && bo.Op != token.EQL) {
+							continue
+						}
+						for _, pair := range [][2]ssa.Value{{bo.X, bo.Y}, {bo.Y, bo.X}} {
+							ld, ok := pair[1].(*ssa.UnOp)
+							if !ok || ld.Op != token.MUL {
+								continue
+							}
+							fa, ok := ld.X.(*ssa.FieldAddr)
+							if !ok {
+								continue
+							}
+							_, fv := fieldAddrInfo(fa)
+							if fv == nil || isNilConst(pair[0]) {
+								continue
+							}
+							if _, isK := pair[0].(*ssa.Const); isK {
+								continue
+							}
+							memos = append(memos, memo{bo, pair[0], fv})
+						}
+					}
+				}
+				for _, m := range memos {
+					// the commit: the compared value stored into the same field
+					var commit *ssa.Store
+					for _, b := range fn.Blocks {
+						for _, ins := range b.Instrs {
+							st, ok := ins.(*ssa.Store)
+							if !ok || st.Val != m.key {
+								continue
+							}
+							if fa, ok := st.Addr.(*ssa.FieldAddr); ok {
+								if _, fv := fieldAddrInfo(fa); fv == m.field {
+									commit = st
+								}
+							}
+						}
+					}
+					if commit == nil {
+						continue
+					}
+					// the loads the comparison guards: data-reading calls with an error result in blocks
+					// entered on an edge that the comparison decides
+					var guarded []*ssa.Call
+					edgeFacts(fn, func(edge *ssa.BasicBlock, f condFact) {
+						if f.cond != ssa.Value(m.cmp) {
+							return
+						}
+						differs := (m.cmp.Op == token.NEQ) == f.truth
+						if !differs {
+							return
+						}
+						for _, b := range fn.Blocks {
+							if !(edge == b || edge.Dominates(b)) {
+								continue
+							}
+							for _, ins := range b.Instrs {
+								call, ok := ins.(*ssa.Call)
+								if !ok {
+									continue
+								}
+								sc := call.Call.StaticCallee()
+								if sc == nil || !c.inRoot(sc) {
+									continue
+								}
+								// a load: it reads segment data, or it is given the key
+								takesKey := false
+								for _, a := range call.Call.Args {
+									if a == m.key {
+										takesKey = true
+									}
+								}
+								if !takesKey && !reachesDataRead(c, sc, 0) {
+									continue
+								}
+								res := call.Call.Signature().Results()
+								if res.Len() == 0 || !isErrorType(res.At(res.Len()-1).Type()) {
+									continue
+								}
+								guarded = append(guarded, call)
+							}
+						}
+					})
+					if len(guarded) == 0 {
+						continue
+					}
+					key := fnName(fn) + "/commit:" + m.field.Name()
+					// reachable from the commit without taking a back edge
+					reach := map[*ssa.BasicBlock]bool{}
+					var walk func(b *ssa.BasicBlock)
+					walk = func(b *ssa.BasicBlock) {
+						for _, s := range b.Succs {
+							if s.Dominates(b) || reach[s] { // back edge, or seen
+								continue
+							}
+							reach[s] = true
+							walk(s)
+						}
+					}
+					walk(commit.Block())
+					bad := ""
+					for _, g := range guarded {
+						after := reach[g.Block()]
+						if g.Block() == commit.Block() && instrIndex(g) > instrIndex(commit) {
+							after = true
+						}
+						if after {
+							bad = c.pos(g.Pos())
+						}
+					}
+					if bad != "" {
+						r.bad(key, fnName(fn), c.pos(commit.Pos()), "the remembered ."+m.field.Name()+" is set to the new key before the load it stands for (at "+bad+") has run: when that load fails the key already claims it, and the next call skips the load")
+					} else {
+						r.ok(key, fnName(fn), c.pos(commit.Pos()), "the key is remembered only after the guarded loads of this round")
+					}
+				}
+			}
+		},
+	})
+}
